@@ -1154,12 +1154,77 @@ func sampleOps(rd *round, g, n int) []string {
 	return res
 }
 
-func body(r *vf.Run) {
-	configs := allConfigs()
+var attribution = []string{"cache.", "util/cacheutil."}
+
+const roundsPerChild = 17 // one child process = every configuration once
+
+func numRounds(r *vf.Run) int {
 	n := r.N(17*3, 17*18) // every configuration 3 / 18 times (capacities, goroutine and key counts redrawn each time)
 	if v, err := strconv.Atoi(os.Getenv("C11_ROUNDS")); err == nil && v > 0 {
 		n = v // development only (timing experiments); a run below the floor exits 3
 	}
+	return n
+}
+
+// body of the top-level (plain) process: the workload runs in race-build children, 17
+// rounds each, because a broken cache does not only return wrong bytes: it can panic inside
+// bytes.Buffer or die with "fatal error: concurrent map writes" in its own commit goroutine,
+// which no recover() in the harness can catch. A child that dies is a violation
+// (crash:<what>@<innermost cache frame>), the rounds it completed are kept (partial result
+// flushed after every round) and the run resumes after the round that crashed.
+func body(r *vf.Run) {
+	if r.Child != "" {
+		childBody(r)
+		return
+	}
+	n := numRounds(r)
+	journal := filepath.Join(r.Scratch, "journal")
+	next, crashes := 0, 0
+	for next < n && crashes <= 3 && r.Violations() <= 25 {
+		to := next + roundsPerChild
+		if to > n {
+			to = n
+		}
+		_ = os.Remove(journal)
+		ex := r.RunChild(vf.ChildSpec{Stage: "rounds", Args: []string{strconv.Itoa(next), strconv.Itoa(to), journal}, Race: true,
+			Timeout: 25 * time.Minute, Attribution: attribution})
+		accountHarnessVisibleRaces(r, ex.Races)
+		last := lastBegun(journal)
+		switch {
+		case ex.TimedOut:
+			r.Inconclusive(fmt.Sprintf("child watchdog (25 min for %d rounds) fired", to-next))
+			crashes++
+		case ex.ExitCode != 0 || !ex.Partial:
+			crashes++
+			kind, site := classifyCrash(ex.Output)
+			r.Violate("crash:"+kind+"@"+site, "the process running the cache workload died: "+kind+" (innermost frame of the cache: "+site+")",
+				map[string]any{"round_index": last, "exit_code": ex.ExitCode, "signal": ex.Signal, "output_head": crashHead(ex.Output),
+					"how_to_rerun": fmt.Sprintf("VERIF_SEED=%d /verif/run.sh C11 %s", r.Seed, r.Tier)})
+		default:
+			next = to
+			continue
+		}
+		if last < next {
+			last = next // died before the first round began: skip it all the same (bounded by `crashes`)
+		}
+		next = last + 1
+	}
+	r.Assume("CLOCK_MONOTONIC is consistent across CPUs (orders the commit-call stamp of a writer against the return of a Get)")
+	r.Assume("the harness copy of fs/layer.newCache's wiring (buffer pool, LRU OnEvicted callbacks) is what production builds; newCache itself is unexported")
+	r.Assume("splitmix64 value generator: two different (key, writer) values do not collide on a compared range")
+}
+
+// childBody runs rounds [from,to) and journals every round before it starts.
+func childBody(r *vf.Run) {
+	if len(r.ChildArgs) != 3 {
+		r.Inconclusive("child started without arguments")
+		return
+	}
+	from, _ := strconv.Atoi(r.ChildArgs[0])
+	to, _ := strconv.Atoi(r.ChildArgs[1])
+	jf, _ := os.OpenFile(r.ChildArgs[2], os.O_WRONLY|os.O_CREATE|os.O_APPEND, 0o644)
+	configs := allConfigs()
+	r.Set("workload_ran_in_race_build", r.RaceBuild)
 	// Per-goroutine scratch (value to write x2, full read, two range reads) lives outside
 	// the Go heap: 29 MB of permanently live heap would only inflate the GC target and with
 	// it the number of fresh (page-faulting, shadow-mapped) pages the race build touches.
@@ -1171,11 +1236,16 @@ func body(r *vf.Run) {
 		}
 		bufs[i] = b
 	}
-	for i := 0; i < n; i++ {
+	for i := from; i < to; i++ {
+		if jf != nil {
+			fmt.Fprintf(jf, "BEGIN %d\n", i)
+			jf.Sync()
+		}
 		rd := genRound(r, i, configs)
 		if !runRound(r, rd, bufs) {
 			break
 		}
+		r.FlushPartial()
 		if i%8 == 7 {
 			runtime.GC() // lets the runtime close wip files leaked by writers closed without commit
 		}
@@ -1183,11 +1253,96 @@ func body(r *vf.Run) {
 			break
 		}
 	}
-	r.AccountOwnRaces([]string{"cache.", "util/cacheutil."}, nil)
-	accountHarnessVisibleRaces(r)
-	r.Assume("CLOCK_MONOTONIC is consistent across CPUs (orders the commit-call stamp of a writer against the return of a Get)")
-	r.Assume("the harness copy of fs/layer.newCache's wiring (buffer pool, LRU OnEvicted callbacks) is what production builds; newCache itself is unexported")
-	r.Assume("splitmix64 value generator: two different (key, writer) values do not collide on a compared range")
+}
+
+func lastBegun(journal string) int {
+	b, err := os.ReadFile(journal)
+	if err != nil {
+		return -1
+	}
+	last := -1
+	for _, l := range strings.Split(string(b), "\n") {
+		var i int
+		if _, err := fmt.Sscanf(l, "BEGIN %d", &i); err == nil {
+			last = i
+		}
+	}
+	return last
+}
+
+var hexAddr = regexp.MustCompile(`0x[0-9a-f]+`)
+
+// classifyCrash finds the first "panic:" / "fatal error:" line of the child's output and
+// the innermost frame of the crashing goroutine that lies in the cache packages (else the
+// innermost frame at all). Numbers are stripped so that the key is stable.
+func classifyCrash(path string) (kind, site string) {
+	kind, site = "died-without-message", "unknown"
+	b, err := os.ReadFile(path)
+	if err != nil {
+		return
+	}
+	lines := strings.Split(string(b), "\n")
+	start := -1
+	for i, l := range lines {
+		if strings.HasPrefix(l, "panic: ") || strings.HasPrefix(l, "fatal error: ") || strings.HasPrefix(l, "unexpected fault address") {
+			k := hexAddr.ReplaceAllString(l, "ADDR")
+			k = digits.ReplaceAllString(k, "N")
+			if len(k) > 120 {
+				k = k[:120]
+			}
+			kind, start = k, i
+			break
+		}
+	}
+	if start < 0 {
+		return
+	}
+	first := ""
+	inTrace := false
+	for _, l := range lines[start+1:] {
+		if strings.HasPrefix(l, "goroutine ") {
+			if inTrace {
+				break // only the first (crashing) goroutine
+			}
+			inTrace = true
+			continue
+		}
+		if !inTrace || l == "" || strings.HasPrefix(l, "\t") || strings.HasPrefix(l, "[") {
+			continue
+		}
+		fn := l
+		if i := strings.LastIndex(fn, "("); i > 0 {
+			fn = fn[:i]
+		}
+		if first == "" && !strings.HasPrefix(fn, "panic") && !strings.HasPrefix(fn, "runtime.") {
+			first = fn
+		}
+		if strings.Contains(fn, "stargz-snapshotter/cache.") || strings.Contains(fn, "stargz-snapshotter/util/cacheutil.") {
+			return kind, strings.TrimPrefix(fn, "github.com/containerd/stargz-snapshotter/")
+		}
+	}
+	if first != "" {
+		site = first
+	}
+	return
+}
+
+func crashHead(path string) string {
+	b, err := os.ReadFile(path)
+	if err != nil {
+		return ""
+	}
+	s := string(b)
+	for _, m := range []string{"panic: ", "fatal error: "} {
+		if i := strings.Index(s, m); i >= 0 {
+			s = s[i:]
+			break
+		}
+	}
+	if len(s) > 3000 {
+		s = s[:3000]
+	}
+	return s
 }
 
 // accountHarnessVisibleRaces: a report in which NEITHER access stack has a frame inside
@@ -1196,15 +1351,11 @@ func body(r *vf.Run) {
 // buffers are per goroutine), so a race whose two sides are harness frames touching memory
 // through bytes.*/os.*/syscall (the cache handed the same buffer or descriptor to both)
 // still counts against the property.
-func accountHarnessVisibleRaces(r *vf.Run) {
-	p := os.Getenv("VERIF_RACELOG")
-	if p == "" || !r.RaceBuild {
-		return
-	}
-	for _, rep := range vf.ParseRaceLogs(p) {
+func accountHarnessVisibleRaces(r *vf.Run, reps []vf.RaceReport) {
+	for _, rep := range reps {
 		a, b := rep.InnermostRepoFrames()
 		if a != "" || b != "" {
-			continue // has repo frames: AccountOwnRaces decided
+			continue // has repo frames: vf's attribution decided
 		}
 		fa, fb := rep.InnermostFrames()
 		inHarness := func(st []string) bool {
